@@ -35,6 +35,7 @@ class TreeCell(Cell):
     self.label = label
     self.valid = True
     self.tid = tid
+    self.is_bool = False  # DTYPE: a bool array (+ is logical OR, * is AND) vs a numeric one
 
   def havoc(self, ctx, base):
     c = self.clone()
@@ -54,6 +55,12 @@ class TreeCell(Cell):
       return new_tree(ctx, -a if not is_fp(a) else z3.fpNeg(a))
     b = tree_val(ctx, other) if isinstance(other, (Ref, OptV)) else other
     x, y = (b, a) if reflected else (a, b)
+    if self.is_bool and arr_is_bool(ctx, other) and op in ('Add', 'Mult', 'BitOr', 'BitAnd'):
+      # numpy/jax: bool + bool is logical OR, bool * bool is logical AND (no promotion)
+      s = to_z3(x) + to_z3(y) if op in ('Add', 'BitOr') else to_z3(x) * to_z3(y)
+      t = new_tree(ctx, z3.If(s > 0, z3.RealVal(1), z3.RealVal(0)))
+      t.cell(ctx).is_bool = True
+      return t
     if op == 'Div' and not (is_fp(x) or is_fp(y)):
       # array division never raises (IEEE); over R, x/0 is an unspecified total
       # value (z3 semantics) — "never NaN" claims are FP-mode obligations
@@ -67,6 +74,13 @@ class TreeCell(Cell):
     a = tree_val(ctx, ref)
     b = tree_val(ctx, other) if isinstance(other, (Ref, OptV)) else other
     return ctx.engine.compare(ctx, op, a, b)
+
+
+def arr_is_bool(ctx, v):
+  """True if v is a bool-typed array (python bools are weakly typed bools too)."""
+  if isinstance(v, Ref) and isinstance(v.cell(ctx), TreeCell):
+    return v.cell(ctx).is_bool
+  return isinstance(v, (bool, z3.BoolRef))
 
 
 def new_tree(ctx, val, owner='local', label='tree', tid=None):
@@ -154,13 +168,23 @@ def num(ctx, x):
   return tree_val(ctx, x) if isinstance(x, (Ref, OptV)) else x
 
 
-def lift(f):
-  """Pointwise jnp function on leaf values / trees."""
+def lift(f, dtype='promote'):
+  """Pointwise jnp function on leaf values / trees.  dtype: how the result's
+  bool-ness follows from the value operands ('promote': bool only if all value
+  operands are bool; 'same': as the first operand; 'num': never bool)."""
   def h(ctx, *args, **kw):
     vals = [num(ctx, a) for a in args]
+    vals = [z3.If(v, z3.RealVal(1), z3.RealVal(0)) if isinstance(v, z3.BoolRef) and dtype != 'cond'
+            else v for v in vals]
     r = f(ctx, *vals)
     if any(isinstance(a, Ref) for a in args):
-      return new_tree(ctx, r)
+      t = new_tree(ctx, r)
+      ops = args[1:] if f is r_where else args
+      if dtype == 'promote':
+        t.cell(ctx).is_bool = all(arr_is_bool(ctx, a) for a in ops)
+      elif dtype == 'same':
+        t.cell(ctx).is_bool = arr_is_bool(ctx, args[0])
+      return t
     return r
   return h
 
@@ -181,6 +205,8 @@ def r_max(ctx, a, b):
 
 
 def r_where(ctx, c, a, b):
+  if isinstance(c, z3.ArithRef):
+    c = c != 0
   if is_fp(a) or is_fp(b):
     a, b = fp_pair(a, b)
     return z3.If(zbool(c), a, b)
@@ -222,10 +248,10 @@ def jnp_module():
       'minimum': Handler(lift(r_min), 'jnp.minimum'),
       'maximum': Handler(lift(r_max), 'jnp.maximum'),
       'where': Handler(lift(r_where), 'jnp.where'),
-      'sqrt': Handler(lift(r_sqrt), 'jnp.sqrt'),
-      'zeros_like': Handler(lift(lambda c, a: z3.FPVal(0, a.sort()) if is_fp(a) else z3.RealVal(0)),
+      'sqrt': Handler(lift(r_sqrt, 'num'), 'jnp.sqrt'),
+      'zeros_like': Handler(lift(lambda c, a: z3.FPVal(0, a.sort()) if is_fp(a) else z3.RealVal(0), 'same'),
                             'jnp.zeros_like'),
-      'ones_like': Handler(lift(lambda c, a: z3.FPVal(1, a.sort()) if is_fp(a) else z3.RealVal(1)),
+      'ones_like': Handler(lift(lambda c, a: z3.FPVal(1, a.sort()) if is_fp(a) else z3.RealVal(1), 'same'),
                            'jnp.ones_like'),
       'array': Handler(c_identity_copy, 'jnp.array'),
       'asarray': Handler(c_identity_copy, 'jnp.asarray'),
